@@ -11,36 +11,52 @@ package store
 
 // the seven record kinds have different prefixes (ground obligation on the constants) ...
 //@ distinct headerPrefix dataPrefix signaturePrefix statePrefix metaPrefix indexPrefix heightPrefix property C14
-// ... and GenerateKey / strconv.FormatUint / path.Clean are injective on slash-free components
-// (assumed), so the key functions are injective and their ranges are disjoint (keyKind):
-//@ spec func KeyHdr(Int) Str injective
-//@ spec func KeyData(Int) Str injective
-//@ spec func KeySig(Int) Str injective
+// ... and the key functions are proved against GenerateKey: a key is GenerateKey of the kind's
+// prefix and one component (the decimal height, the hex hash, the metadata name). Assumed of
+// GenerateKey (trusted, below): for each prefix it is an injective function of the component, and
+// keys of different prefixes differ - true of "/"+prefix+"/"+component after path.Clean as long
+// as the component is a clean relative path, which decimal numbers, hex strings and the metadata
+// names the node uses are.
+//@ spec func KeyHdrS(Str) Str injective
+//@ spec func KeyDataS(Str) Str injective
+//@ spec func KeySigS(Str) Str injective
 //@ spec func KeyIdx(Str) Str injective
 //@ spec func KeyMeta(Str) Str injective
 //@ spec func KeyHeight() Str
 //@ spec func KeyState() Str
 //@ spec func keyKind(Str) Int
-//@ func getHeaderKey(height) (r)
+//@ pred KeyHdr(h) := KeyHdrS(decStr(h))
+//@ pred KeyData(h) := KeyDataS(decStr(h))
+//@ pred KeySig(h) := KeySigS(decStr(h))
+//@ func GenerateKey(fields) (r)
 //@   trusted
+//@   ensures [header-key] len(fields) == 2 && fields[0] == "h" ==> r == KeyHdrS(fields[1]) && keyKind(r) == 1
+//@   ensures [data-key] len(fields) == 2 && fields[0] == "d" ==> r == KeyDataS(fields[1]) && keyKind(r) == 2
+//@   ensures [signature-key] len(fields) == 2 && fields[0] == "c" ==> r == KeySigS(fields[1]) && keyKind(r) == 3
+//@   ensures [meta-key] len(fields) == 2 && fields[0] == "m" ==> r == KeyMeta(fields[1]) && keyKind(r) == 5
+//@   ensures [index-key] len(fields) == 2 && fields[0] == "i" ==> r == KeyIdx(fields[1]) && keyKind(r) == 6
+//@   ensures [height-key] len(fields) == 1 && fields[0] == "t" ==> r == KeyHeight() && keyKind(r) == 7
+//@ axiom KeyState() == "s" && keyKind("s") == 4
+//@ func getHeaderKey(height) (r)
+//@   property C14 C01 C02 C04 C05 C06 C07
 //@   ensures [key] r == KeyHdr(height) && keyKind(r) == 1
 //@ func getDataKey(height) (r)
-//@   trusted
+//@   property C14 C01 C02 C04 C05 C06 C07
 //@   ensures [key] r == KeyData(height) && keyKind(r) == 2
 //@ func getSignatureKey(height) (r)
-//@   trusted
+//@   property C14 C01 C02 C04 C05 C06 C07
 //@   ensures [key] r == KeySig(height) && keyKind(r) == 3
 //@ func getStateKey() (r)
-//@   trusted
+//@   property C14 C01 C02 C04 C05 C06 C07
 //@   ensures [key] r == KeyState() && keyKind(r) == 4
 //@ func getMetaKey(key) (r)
-//@   trusted
+//@   property C14 C01 C02 C04 C05 C06 C07
 //@   ensures [key] r == KeyMeta(key) && keyKind(r) == 5
 //@ func getIndexKey(hash) (r)
-//@   trusted
+//@   property C14 C01 C02 C04 C05 C06 C07
 //@   ensures [key] r == KeyIdx(hexstr(val(hash))) && keyKind(r) == 6
 //@ func getHeightKey() (r)
-//@   trusted
+//@   property C14 C01 C02 C04 C05 C06 C07
 //@   ensures [key] r == KeyHeight() && keyKind(r) == 7
 
 //@ pred AbsHeight(s) := ite(s.db.kvHas[dskey(KeyHeight())], le64dec(s.db.kv[dskey(KeyHeight())]), 0)
